@@ -1114,6 +1114,14 @@ func (t *Type) Ready() error {
 	if t.Dict == nil {
 		panic("Type.Ready Dict is nil")
 	}
+
+	// The Go methods in the dictionary take an instance of the
+	// type as self when they are called through the type
+	for _, v := range t.Dict {
+		if m, ok := v.(*Method); ok && m.Module == nil && m.owner == nil {
+			m.owner = t
+		}
+	}
 	t.Flags = (t.Flags &^ TPFLAGS_READYING) | TPFLAGS_READY
 	return nil
 }
